@@ -119,3 +119,55 @@ func verifH_C03_emit_server() {
 	verifAssert(verifHeldLocks() == 0 && verifBlocked() == 0, "no mutex left held, no goroutine blocked")
 	verifReach("end")
 }
+
+// C03_reconnect_ids: acks outstanding across a reconnection. A client emits A with an ack and a timeout, loses the
+// connection (onClose) before the reply, is connected again and emits B with an ack; then A's timer runs out and the
+// peer's reply to B arrives (B's id read from the frame that was sent). A's callback gets ErrAckTimeout once, B's
+// callback gets B's reply once: an ack id still held by an outstanding ack is never handed out again.
+//
+//verif:unwind 12
+//verif:sleep gate
+func verifH_C03_reconnect_ids() {
+	var log []verifEncoded
+	_, cl := verifClientWorld(verifRecParser{log: &log}, "/")
+	s := cl["/"]
+	callsA, callsB := 0, 0
+	var errA, errB error
+	argB := ""
+	s.Timeout(30*time.Millisecond).Emit("a", func(err error, arg string) {
+		callsA++
+		errA = err
+	})
+	reasons := []Reason{ReasonTransportClose, ReasonPingTimeout, ReasonIOServerDisconnect}
+	s.onClose(reasons[verifChoose(0, 2)])
+	s.stateMu.Lock()
+	s.state = clientSocketConnStateConnected // the CONNECT of the new session arrived
+	s.stateMu.Unlock()
+	before := len(log)
+	s.Emit("b", func(arg string) {
+		callsB++
+		argB = arg
+	})
+	var idB *uint64
+	for _, e := range log[before:] {
+		if e.typ == parser.PacketTypeEvent && e.id != nil {
+			idB = e.id
+		}
+	}
+	verifAssert(idB != nil, "B is sent with an ack id")
+	if idB == nil {
+		return
+	}
+	// A's 30 ms run out
+	verifWake(1)
+	if verifIsNative() {
+		time.Sleep(60 * time.Millisecond)
+	}
+	verifSettle()
+	verifAssert(callsA == 1 && errA == ErrAckTimeout, "the ack that was outstanding when the connection dropped times out, once")
+	rid := *idB
+	s.onAck(&parser.PacketHeader{Type: parser.PacketTypeAck, Namespace: "/", ID: &rid}, verifReplyDecode("reply-b"))
+	verifAssert(callsB == 1 && errB == nil && argB == "reply-b", "the reply to the event emitted after the reconnection reaches that event's callback")
+	verifAssert(callsA == 1, "and nobody else's")
+	verifReach("end")
+}
